@@ -15,18 +15,19 @@ for _n, _c, _tier in ((3, 2, 'thorough'), (4, 2, 'thorough'), (3, 3, 'thorough')
     GROUPS.append(dict(_S, cls='B', name='softclip_independence_n%dc%d' % (_n, _c), entry='h_softclip_independence', unwind=_n * _c + 2, timeout=5400, mem_gb=24, tier=_tier,
         defines=['-U__SSE__', '-DVERIF_N=%d' % _n, '-DVERIF_C=%d' % _c], bounds='N=%d x C=%d, arbitrary finite floats, memory in [-1,1]' % (_n, _c),
         what='one interleaved call equals C mono calls with per-channel memory, bit for bit'))
-for _n, _c, _q in ((4, 2, 1), (4, 2, 0), (3, 3, 1)):
-    GROUPS.append(dict(_S, cls='B', name='softclip_isolation_n%dc%dq%d' % (_n, _c, _q), entry='h_softclip_isolation', unwind=_n * _c + 2, timeout=1800, mem_gb=16,
+for _n, _c, _q, _tier in ((3, 2, 1, 'quick'), (3, 2, 0, 'quick'), (4, 2, 1, 'thorough'), (4, 2, 0, 'thorough'), (3, 3, 1, 'thorough')):
+    GROUPS.append(dict(_S, cls='B', name='softclip_isolation_n%dc%dq%d' % (_n, _c, _q), entry='h_softclip_isolation', unwind=_n * _c + 2, timeout=3600, mem_gb=16, tier=_tier,
         cbmc_flags=['--object-bits', '10', '--slice-formula'],
         defines=['-U__SSE__', '-DVERIF_N=%d' % _n, '-DVERIF_C=%d' % _c, '-DVERIF_QUIET=%d' % _q], bounds='N=%d x C=%d, channel %d in [-1,1] with cleared memory, the other channels arbitrary finite floats with memory in [-1,1]' % (_n, _c, _q),
         what='a channel that needs no clipping is untouched whatever the other channels contain (channel isolation)'))
 for _nm, _d in (('plc', ['-DVERIF_GAIN_PLC=1']), ('frame', [])):
-    GROUPS.append(dict(name='decode_gain_' + _nm, cls='B', tu='C19_decode_gain.c', entry='h_decode_gain', dfcc=False, canary='real', expect_canaries=2,
-        defines=['-DVERIF_FS=8000', '-U__SSE__', '-DVERIF_MAXLEN=3'] + _d, unwind=10, unwind_src=[(r'i<frame_size\*st->channels', 82), (r'i<audiosize\*st->channels', 82), (r'i<st->channels\*F2_5', 42), (r'i<F2_5|i<overlap', 22)], timeout=1800, mem_gb=16,
-        cbmc_flags=['--object-bits', '10', '--slice-formula'], cex={'self': True},
-        functions=['opus_decode_frame'],
-        trusted=['exp() of libm (stub: records its argument, returns an arbitrary positive value)', 'ASSUMED frame contracts (stubs) of celt_decode_with_ec(_dred), opus_custom_decoder_ctl as in C01_decode_frame.c'],
-        bounds='Fs = 8000, MDCT-only frames of 2.5 or 5 ms (20/40 samples) without mode transition, 1-2 channels, %s, any gain -32768..32767' % ('lost frame' if _nm == 'plc' else 'payload of 2-3 symbolic bytes'),
-        what='decoder gain block of opus_decode_frame: applied iff gain != 0, factor exp(ln2*6.48814081e-4*g), every sample scaled, nothing else changed'))
+    for (_ch, _fr) in ((2, 2), (1, 1)):
+        GROUPS.append(dict(name='decode_gain_%s_c%df%d' % (_nm, _ch, _fr), cls='B', tu='C19_decode_gain.c', entry='h_decode_gain', dfcc=False, canary='real', expect_canaries=2,
+            defines=['-DVERIF_FS=8000', '-U__SSE__', '-DVERIF_MAXLEN=3', '-DVERIF_FIXED_PCM=1', '-DVERIF_CH=%d' % _ch, '-DVERIF_FRAME=%d' % _fr] + _d, unwind=10,
+            unwind_src=[(r'i<frame_size\*st->channels', 82), (r'i<audiosize\*st->channels', 82), (r'i<st->channels\*F2_5', 42), (r'i<F2_5|i<overlap', 22)], timeout=1800, mem_gb=16,
+            cex={'self': True}, functions=['opus_decode_frame'],
+            trusted=['exp() of libm (stub: records its argument, returns an arbitrary positive value)', 'ASSUMED frame contracts (stubs) of celt_decode_with_ec(_dred), opus_custom_decoder_ctl as in C01_decode_frame.c'],
+            bounds='Fs = 8000, MDCT-only frame of %g ms without mode transition, %d channel(s), %s, any gain -32768..32767' % (_fr * 2.5, _ch, 'lost frame' if _nm == 'plc' else 'payload of 2-3 symbolic bytes'),
+            what='decoder gain block of opus_decode_frame: applied iff gain != 0, factor exp(ln2*6.48814081e-4*g), every sample scaled, nothing else changed'))
 
 META = {'cex': {'self': True, 'timeout': 900}}
